@@ -1,7 +1,7 @@
 (** Model of src/frontend/lexer.rs (code-shaped, executable, no proofs in this file).
     The Rust index cursor [start] into [src] is the suffix [rest] of the source plus the position [pos]. *)
 From Pakhi Require Import Base Float64 Syntax Tables.
-Open Scope N_scope.
+Local Open Scope N_scope.
 
 Fixpoint assoc_N {A} (k : N) (l : list (N * A)) : option A :=
   match l with [] => None | (k', v) :: r => if N.eqb k k' then Some v else assoc_N k r end.
